@@ -116,6 +116,14 @@ theorem track_verdict (T : Nat) (sels : List Sel) : (track T sels).ok = satisfie
     rw [h]
     simp [satisfied, hT]
 
+/-- **Increments after a counter has wound down change nothing** (its loop has returned; in the code they are
+parked in their own goroutines — `go func() { chIncrements <- count }()` — so the caller, the block source,
+is never held up, however many arrive). -/
+theorem late_selections_ignored (T : Nat) (sels more : List Sel) (h : (track T sels).tr.done = true) :
+    track T (sels ++ more) = track T sels := by
+  unfold track at *
+  rw [List.foldl_append, foldl_trackStep_done _ h]
+
 example : (track 3 [.inc 1, .inc 2, .done]).ok = true := by decide
 example : (track 3 [.inc 1, .inc 5, .inc 9]).ok = true := by decide      -- exceeding the total is accepted
 example : (track 3 [.inc 1, .done, .inc 2]).ok = false := by decide      -- close seen first
